@@ -1,6 +1,6 @@
 \* quick 1: one message, every option combination, interval + date rollover, SIGHUP, SIGTERM, kill and power loss
 \* at every step, pre-existing and concurrently created colliding names
-SPECIFICATION Spec
+SPECIFICATION SpecK
 CONSTANTS
   Msgs = {1}
   MaxInFlight = 1
@@ -13,9 +13,10 @@ CONSTANTS
   PreNames <- PreNamesQ
   PreSize = 2
   ForeignNames <- ForeignQ
-  MaxForeign = 1
+  MaxForeign = 0
   OptSet <- AllOpts
 CONSTRAINT RevBound
+ACTION_CONSTRAINT KillPoints
 INVARIANTS TypeOK DurSane FinOnlyAfterDurable NothingOwedIsMissing FinqIsDurable Custody SyncOnOpenFile
 PROPERTIES NeverOverwrite
 CHECK_DEADLOCK FALSE
